@@ -6,7 +6,7 @@
 //     [balanceDemand();]  solve();  assign();
 // and prints the answers; the Lean driver replays the same op lines on the model
 // (and, on `cert`, checks its own plan against the verified optimality certificate; on `loc` —
-// every case — checks the positions of the sweep against the verified local certificate `locCertOk`).
+// every case — checks the positions of the sweep against the verified local certificate `ivCertOk`).
 // Direct oracle (independent code, evaluates the statement of C14):
 //   * balanceDemand: total demand >= total supply afterwards, demands only grow, nothing else changes
 //   * solve: entries in range and positive, every supply met exactly, no demand exceeded,
@@ -179,7 +179,7 @@ static void runCase(const Inst &in, std::ostream &os, ll dpLimit) {
     if (solved) os << "I cert ok\nC certificate_checked_in_lean\n";
     else os << "I cert throw:runtime_error\n";
   }
-  // every case: the model's positions must pass the verified local certificate (`locCertOk`)
+  // every case: the model's positions must pass the verified local certificate (`ivCertOk`)
   if (solved) os << "I loc ok\nC local_certificate_checked_in_lean\n";
   else os << "I loc throw:runtime_error\n";
   if (split) os << "C some_source_split\n";
